@@ -1,4 +1,5 @@
 import SplinkVerif.Drv.Util
+import SplinkVerif.Drv.Arith
 import SplinkVerif.Model.CC
 namespace SplinkVerif.Drv
 open Lean SplinkVerif
@@ -9,11 +10,11 @@ def handleCC (j : Json) : Except String Json := do
   let es ← getArr j "edges"
   let thrP ← optOf floatOfBits (j.getObjValD "thr")
   let thrW ← optOf floatOfBits (j.getObjValD "thrw")
-  -- a match-weight threshold w is the probability 2^w / (1 + 2^w)
-  let thr := match thrP, thrW with
-    | some p, _ => some p
-    | none, some w => some (CC.weightToProb w)
-    | none, none => none
+  -- the two optional arguments go through the *translated* `threshold_args_to_match_prob` (Generated/Arith.lean,
+  -- regenerated from misc.py on every run): `none` = the real function raises
+  let thr ← match Gen.threshold_args_to_match_prob thrP thrW with
+    | some t => pure t
+    | none => throw "threshold_args_to_match_prob raises"
   let edges ← es.toList.mapM fun e => do
     let a ← e.getArr?
     if a.size < 3 then throw "edge [l,r,bits] expected"
